@@ -95,18 +95,34 @@ def key_exprs(tree, builder, index_name):
     return out
 
 
-def eval_key(e, obj):
+def key_aliases(tree, builder):
+    """Local aliases `name = <expr over obj>` of an index builder (each name assigned exactly once); other locals stay unresolved."""
+    fn = tree.find_func(EL, builder)
+    seen = {}
+    for n in ast.walk(fn):
+        if isinstance(n, ast.Assign) and len(n.targets) == 1 and isinstance(n.targets[0], ast.Name) and n.targets[0].id != 'obj':
+            seen.setdefault(n.targets[0].id, []).append(n.value)
+    return {k: v[0] for k, v in seen.items() if len(v) == 1}
+
+
+def eval_key(e, obj, env=None):
+    env = env or {}
     if isinstance(e, ast.Name) and e.id == 'obj':
         return obj
+    if isinstance(e, ast.Name) and e.id in env:
+        return eval_key(env[e.id], obj, {k: v for k, v in env.items() if k != e.id})
     if isinstance(e, ast.Attribute):
-        return eval_key(e.value, obj)[e.attr]
+        return eval_key(e.value, obj, env)[e.attr]
     if isinstance(e, ast.Call) and isinstance(e.func, ast.Attribute) and e.func.attr == 'lower' and not e.args:
-        return eval_key(e.func.value, obj).lower()
+        return eval_key(e.func.value, obj, env).lower()
     if isinstance(e, ast.Call) and isinstance(e.func, ast.Name) and e.func.id == 'str':
-        return str(eval_key(e.args[0], obj))
+        return str(eval_key(e.args[0], obj, env))
     if isinstance(e, ast.BinOp) and isinstance(e.op, ast.Add):
-        return eval_key(e.left, obj) + eval_key(e.right, obj)
-    raise ValueError('key expression outside subset: %s' % ast.unparse(e))
+        return eval_key(e.left, obj, env) + eval_key(e.right, obj, env)
+    from pyvc.values import Unsupported
+    u = Unsupported('key expression outside subset: %s' % ast.unparse(e))
+    u.label = 'index-builder'
+    raise u
 
 
 def _registry(ctx, eng):
@@ -132,12 +148,13 @@ def _registry(ctx, eng):
     # whatever the iteration order of dir())
     for builder, index, objs in (('_build_element_index', '_element_index', elements), ('_build_isotope_index', '_isotope_index', isotopes)):
         keys = key_exprs(tree, builder, index)
+        al = key_aliases(tree, builder)
         out.append(structural('registry/%s.keys-found' % builder, PROP, len(keys) >= 3, 'key expressions: %s' % [ast.unparse(k) for k in keys]))
         vals = []
         lower_ok = True
         for o in objs:
             for k in keys:
-                v = eval_key(k, o)
+                v = eval_key(k, o, al)
                 vals.append((v, o['var']))
                 lower_ok = lower_ok and v == v.lower()
         distinct('%s.single-writer' % builder, vals, 'index keys')
@@ -147,12 +164,12 @@ def _registry(ctx, eng):
     ik = key_exprs(tree, '_build_isotope_index', '_isotope_index')
     miss = []
     for o in elements:
-        have = {eval_key(k, o) for k in ek}
+        have = {eval_key(k, o, key_aliases(tree, '_build_element_index')) for k in ek}
         for ident in (o['name'].lower(), o['symbol'].lower(), str(o['atomic_number'])):
             if ident not in have:
                 miss.append((o['var'], ident))
     for o in isotopes:
-        have = {eval_key(k, o) for k in ik}
+        have = {eval_key(k, o, key_aliases(tree, '_build_isotope_index')) for k in ik}
         el = o['element']
         for ident in (o['name'].lower(), o['symbol'].lower(), (el['symbol'] + str(o['mass_number'])).lower(),
                       (el['name'] + str(o['mass_number'])).lower()):
@@ -221,6 +238,11 @@ import tempfile, shutil
 from cherab.core.atomic import elements as E
 from cherab.core.atomic.elements import Element, Isotope, lookup_element, lookup_isotope
 bad = []; n = 0
+def _look(f, *a):
+    try:
+        return f(*a)
+    except Exception as ex:
+        return "raised " + type(ex).__name__ + ": " + str(ex)
 objs = [getattr(E, k) for k in dir(E)]
 els = [o for o in objs if type(o) is Element]; iso = [o for o in objs if type(o) is Isotope]
 # the registry must answer the same after the rate repository was used with isotopes and elements (its key helpers take both)
@@ -240,13 +262,13 @@ finally:
 for e in els:
     for ident in (e.name, e.symbol, str(e.atomic_number), e.name.upper(), e.symbol.upper(), e.symbol.lower(), e):
         n += 1
-        if lookup_element(ident) is not e: bad.append(("element", e.name, str(ident)))
+        if _look(lookup_element, ident) is not e: bad.append(("element", e.name, str(ident)))
 for i in iso:
     for ident in (i.name, i.symbol, i.name.upper(), i.symbol.lower(), i.element.symbol + str(i.mass_number), i.element.name.upper() + str(i.mass_number), i):
         n += 1
-        if lookup_isotope(ident) is not i: bad.append(("isotope", i.name, str(ident)))
+        if _look(lookup_isotope, ident) is not i: bad.append(("isotope", i.name, str(ident)))
     n += 1
-    if lookup_isotope(i.element, i.mass_number) is not i: bad.append(("isotope2", i.name))
+    if _look(lookup_isotope, i.element, i.mass_number) is not i: bad.append(("isotope2", i.name))
 allsp = els + iso
 import random
 rnd = random.Random(19)
